@@ -267,6 +267,17 @@ def main():
                     open(path, 'w').write(new)
             if r.returncode != 0:
                 problems.append(('infra', f'table generator {sub} failed (rc={r.returncode})', ''))
+    # source translation: regenerate the lexical / grammar tables from the current text of /repo/src (tools/translate.py)
+    translation = None
+    if cfg.get('translate'):
+        cfg = dict(cfg, modules=list(cfg['modules']))
+        with Lock('lake'):
+            r = subprocess.run([sys.executable, os.path.join(VERIF, 'tools', 'translate.py')], stdout=subprocess.PIPE, stderr=subprocess.STDOUT, timeout=120)
+        translation = r.stdout.decode(errors='replace').strip()[:300]
+        if r.returncode != 0:
+            # source shape outside the translator's grammar: NOT a violation; the theorems about the generated tables are not
+            # claimed in this run and the behavioural tie (exhaustive token sequences, all code points) decides alone
+            cfg['modules'] = [m for m in cfg['modules'] if m != 'SlacProps.C01Source']
     ok, out = lake_build(['driver'] + cfg['modules'])
     proof_ok = ok
     if not ok:
@@ -457,6 +468,7 @@ def main():
             exhaustive=False,
             exhaustive_streams=sorted(k for k, v in streams_ev.items() if v.get('exhaustive')),
             explanation=cfg.get('explanation', ''),
+            **({'source_translation': translation} if translation is not None else {}),
         ),
         assumptions=cfg.get('assumptions', []),
         wall_s=round(time.time() - t0, 1),
